@@ -20,7 +20,7 @@ class C12(Property):
     id = "C12"
     title = "Timing wheel fires every timer exactly once, at its due tick"
     quick_cases = 420
-    thorough_cases = 12000
+    thorough_cases = 8000
     design_ref = "DESIGN.md §6/C12"
     level_text = ("Unbounded Rocq theorems (every wheel size, interval, history of Set/Move/Remove/Tick/Drain/Stop calls, "
                   "valid or rejected): the wheel model (flat and pointer-level) refines the map key->(remaining ticks,value); "
@@ -79,6 +79,13 @@ class C12(Property):
             w(4, 10, [["set", 1, 999, 20], ["set", 2, 7, 20], ["set", 3, 1999, 20], ["set", 4, 8, 60]] + T * 3 + [["drain"]]),
             w(4, 10, [["set", 1, 999, 20], ["set", 2, 7, 20], ["drain"], ["set", 2, 7, 20]] + T * 3),
         ]
+        # callbacks that do not return before later ticks (seed C12-4): a,b due at tick 1 (a held), c,d at tick 2
+        cs += [
+            dict(w(8, 10, [["set", 1, 900, 10], ["set", 2, 2, 10], ["set", 3, 3, 20], ["set", 4, 4, 20], ["tick"], ["tick"],
+                           ["release", 900], ["tick"]], "fake"), hold=[900]),
+            dict(w(3, 10, [["set", 1, 900, 10], ["set", 2, 901, 10], ["set", 3, 900, 20], ["set", 4, 4, 20], ["set", 5, 5, 40]]
+                   + T * 2 + [["release", 901]] + T * 2 + [["release", 900], ["drain"]]), hold=[900, 901]),
+        ]
         for (n, i, e) in [(0, 10, True), (-3, 10, True), (4, 0, True), (4, -1, True), (4, 1000000, False),
                           (4, 1000000, True), (1, 1, True), (0, 0, False)]:
             cs.append({"kind": "new", "n": n, "interval": i, "exec": e})
@@ -103,9 +110,12 @@ class C12(Property):
         n_cache = (n * 2) // 5
         n_clean = max(2, n // 100)
         n_free = max(4, n // 40)
+        n_gated = n // 6
         for _ in range(n_free):
             cases.append(self._gen_free(rng))
-        for _ in range(n - n_cache - n_clean - n_free):
+        for _ in range(n_gated):
+            cases.append(self._gen_gated(rng))
+        for _ in range(n - n_cache - n_clean - n_free - n_gated):
             cases.append(self._gen_wheel(rng))
         for _ in range(n_cache):
             cases.append(self._gen_cache(rng))
@@ -172,6 +182,44 @@ class C12(Property):
             else:
                 ops.append(["drain"])
         return {"kind": "wheel", "n": ns, "interval": interval, "ticker": rng.choice(["rv", "rv", "fake"]), "ops": ops}
+
+    def _gen_gated(self, rng):
+        """execute callbacks held open by the controller across further ticks; several timers due per tick"""
+        ns = rng.choice([1, 2, 3, 4, 5, 8])
+        interval = rng.choice([1, 10, 1000])
+        nkeys = rng.randint(3, 8)
+        hold = rng.sample([900, 901, 902, 903, 904], rng.randint(1, 3))
+        nops = rng.randint(15, 70)
+        ops = []
+        while len(ops) < nops:
+            r = rng.random()
+            k = rng.randrange(nkeys)
+            steps = rng.choice([1, 1, 1, 2, 2, 3, ns, ns + 1, 2 * ns + 1])
+            d = steps * interval
+            if r < 0.08:          # a burst: several timers due at the same tick, some of them held
+                for j in range(rng.randint(2, 5)):
+                    v = rng.choice(hold) if rng.random() < 0.4 else rng.randrange(800)
+                    ops.append(["set", (k + j) % nkeys, v, d])
+            elif r < 0.40:
+                v = rng.choice(hold) if rng.random() < 0.3 else rng.randrange(800)
+                if rng.random() < 0.1:
+                    v = 999 if rng.random() < 0.5 else 1999
+                ops.append(["set", k, v, d])
+            elif r < 0.50:
+                ops.append(["move", k, d])
+            elif r < 0.55:
+                ops.append(["remove", k])
+            elif r < 0.63:
+                ops.append(["release", rng.choice(hold)])
+            elif r < 0.65:
+                ops.append(["drain"])
+            else:
+                ops.append(["tick"])
+        ops += T * rng.randint(0, 2 * ns + 2)
+        rel = list(hold)
+        rng.shuffle(rel)
+        ops += [["release", v] for v in rel]
+        return {"kind": "wheel", "n": ns, "interval": interval, "ticker": rng.choice(["rv", "fake"]), "hold": hold, "ops": ops}
 
     def _delay(self, rng, ns, interval, edge):
         steps = rng.choice([1, 1, 2, ns - 1, ns, ns + 1, 2 * ns, 2 * ns + 1, rng.randint(1, 4 * ns + 1)])
@@ -366,8 +414,12 @@ class C12(Property):
             tks = ["(%s, %s, %s)" % (cz(t["s"]), cz(t["e"]), self._fired(t["f"])) for t in obs["free"]["ticks"]]
             return "CFree %s %s %s %s" % (cz(case["n"]), cz(case["interval"]), clist(evs), clist(tks))
         if kind == "wheel":
-            ops = clist([self._aop(o) for o in case["ops"]])
             ob = clist(["(%s, %s)" % (self._fired(s["f"]), RES[s["r"]]) for s in steps])
+            if case.get("hold") or any(o[0] == "release" for o in case["ops"]):
+                ops = clist(["GRelease %s" % cz(o[1]) if o[0] == "release" else "GCall (%s)" % self._aop(o) for o in case["ops"]])
+                return "CGated %s %s %s %s %s" % (cz(case["n"]), cz(case["interval"]),
+                                                  clist([cz(v) for v in case.get("hold") or []]), ops, ob)
+            ops = clist([self._aop(o) for o in case["ops"]])
             return "CWheel %s %s %s %s" % (cz(case["n"]), cz(case["interval"]), ops, ob)
         if kind == "new":
             r1 = RES[steps[0]["r"]] if steps else "ROk"
@@ -433,6 +485,10 @@ class C12(Property):
                 fs.append("has_ErrClosed")
             if any(v % 1000 == 999 for s in obs["obs"] for _, v in s["f"]):
                 fs.append("callback_panicked")
+            if case.get("hold"):
+                fs.append("gated")
+                if any(o[0] == "release" and s["f"] for o, s in zip(case["ops"], obs["obs"])):
+                    fs.append("batch_resumed_after_release")
         elif kind == "cache":
             fs.append("limit=%d" % case["limit"])
             if any(x[0] == "set" and x[3] < (obs.get("interval") or SEC) for s in obs["obs"] for x in (s.get("t") or [])):
